@@ -5,19 +5,7 @@ V = os.path.dirname(os.path.dirname(os.path.abspath(__file__)))
 props = [json.loads(l) for l in open(os.path.join(V, "properties.jsonl"))]
 
 # property id -> (design_ref, text, level_note, technique)
-BUILT = {
- "C12": ("DESIGN.md 6/C12",
-  "Dispatch.tla transcribes register / handle lookup (direct name, one-hop alias fallback, not found), the five formatters, client-side naming and the arity / per-parameter decode gate; TLC checks P_C12 on every explored row and exports the table; rows are executed against a real RPCServer (in-process and over HTTP) and a real custom-transport client; TLC re-evaluates model and P_C12 on every observed outcome.",
-  "name-dispatch rows are a seeded TLC sample (RandomSubset per dimension) of the 1.1M-row universe, client and arity rows complete; decodability oracle is encoding/json; trusts the reply classifier of the harness",
-  "TLA+ model (Dispatch.tla) checked by TLC; TLC-exported table replayed into the real code; TLC trace validation (DispatchTrace.tla)"),
- "C19": ("DESIGN.md 6/C19",
-  "Auth.tla transcribes HasPerm/PermissionedProxy/auth.Handler statement by statement; TLC checks P_C19 on every one of the 1902 rows of the "
-  "3-permission universe and exports the table; every row is executed against the real auth package (several seeded concretisations, fresh and "
-  "shared handler instances) and TLC re-evaluates the model and P_C19 on each observed outcome. The universe of the property is finite and is "
-  "enumerated completely in both tiers.",
-  "trusts net/http/httptest, the Go reflect package and the harness classifier that abstracts real outcomes (ran / error class / attached set)",
-  "TLA+ model (Auth.tla) checked exhaustively by TLC; TLC-exported table replayed into the real code; TLC trace validation (AuthTrace.tla) of every observed outcome"),
-}
+BUILT = {k: (v["design_ref"], v["text"], v["level_note"], v["technique"]) for k, v in json.load(open(os.path.join(V, "tools", "built.json"))).items()}
 
 hooks_commits = subprocess.run(["git", "-C", "/repo", "log", "--format=%h", "--grep=^verif:"], capture_output=True, text=True).stdout.split()
 m = {
